@@ -69,6 +69,32 @@ fn main() {
     let du = dspec.universe();
     let capd = if quick { 300_000 } else { 20_000_000 };
     ctx.run_slice(Slice::new(format!("lax-deletions-stay-well-formed[{} first {}]", dspec.name(), capd.min(du.count())), du.count().min(capd), |i, loc| check_lax_deletions(&du.get(i), loc)));
+    // larger inputs: typed results on structured diagrams; batches of four operations with types of length up to 3
+    let st: Vec<_> = ohmc::props::structured::shapes(3).into_iter().map(|x| x.1).collect();
+    ctx.run_slice(Slice::new(format!("typed-single-structured[{} diagrams]", st.len()), st.len() as u64, |i, loc| {
+        let f = &st[i as usize];
+        if f.nodes.len() <= 5 {
+            check_single::<B>(f, loc)
+        }
+    }));
+    let nst = st.len() as u64;
+    ctx.run_slice(Slice::new(format!("typed-pairs-structured[{}^2]", nst), nst * nst, |i, loc| check_pair::<B>(&st[(i / nst) as usize], &st[(i % nst) as usize], loc)));
+    let tys3: Vec<Vec<u8>> = vec![vec![], vec![0], vec![1, 0], vec![0, 1, 1]];
+    let mut ops4: Vec<(u8, Vec<u8>, Vec<u8>)> = vec![];
+    for a in &tys3 {
+        for b in &tys3 {
+            ops4.push((ops4.len() as u8 % 2, a.clone(), b.clone()));
+        }
+    }
+    let m4 = ops4.len() as u64;
+    ctx.run_slice(Slice::new(format!("operation-batches-of-four[{}^4]", m4), m4 * m4 * m4 * m4, |mut i, loc| {
+        let mut ops = vec![];
+        for _ in 0..4 {
+            ops.push(ops4[(i % m4) as usize].clone());
+            i /= m4;
+        }
+        check_batch::<B>(&ops, loc)
+    }));
     let meta = Meta {
         rule: "every public constructor and categorical operation of the strict and lax modules over the listed universes: each result is decoded with the deep well-formedness checker (one source and one target list per hyperedge, sizes sum to the incidence length, sources.target = sum+1, every node reference and interface entry in range, declared codomains equal to the node count) and its type compared with the promised one; raw data for Hypergraph::new / OpenHypergraph::new with every combination of mismatched counts and codomains (<=3); the functor, optic and conversion outputs are deep-checked inside C10, C12, C13, C14".into(),
         bounds: "<=2-3 nodes, <=1-2 hyperedges, arity <=2, interfaces <=2, 2+2 labels; batches of <=2 (quick) / <=3 operations with types of length <=2".into(),
